@@ -16,6 +16,7 @@ import (
 	"strconv"
 	"strings"
 	"sync"
+	"sync/atomic"
 	"time"
 
 	logging "github.com/ipfs/go-log/v2"
@@ -65,6 +66,13 @@ type scen struct {
 	outms  int    // daf=outage: every submission fails during the first outms milliseconds of the node's life, then the DA accepts
 	notx   bool   // idle chain: the execution double is fed no transactions
 	xagg   int    // agg: the execution layer's GetTxs takes N ms WHATEVER the context says (a remote component that winds a cancelled call down slowly)
+	// STORE FAULT (round 6, seed C13-H): sfat ms after the node under test started, the next sfn (default 1) writes of the
+	// chosen kind on the node's datastore return an injected error and write nothing (hx.LogDS's FailPut / FailCommit
+	// semantics): "state" = single Puts of the state key (store.UpdateState), "put" = single Puts whatever the key
+	// (SetHeight / UpdateState / SetMetadata), "commit" = batch commits (SaveBlockData)
+	sf   string
+	sfat int
+	sfn  int
 }
 
 func (s scen) line() string {
@@ -99,6 +107,12 @@ func (s scen) line() string {
 	}
 	if s.notx {
 		x += " notx=1"
+	}
+	if s.sf != "" {
+		x += fmt.Sprintf(" sf=%s sfat=%d", s.sf, s.sfat)
+		if s.sfn > 0 {
+			x += fmt.Sprintf(" sfn=%d", s.sfn)
+		}
 	}
 	return fmt.Sprintf("run mode=%s future=%d slow=%d lazy=%d bt=%d span=%d prod=%d%s", s.mode, s.future, s.slow, l, s.bt, s.span, s.prod, x)
 }
@@ -137,6 +151,14 @@ func Gen(r *hx.Rng, tier string, w io.Writer) {
 		// an IDLE chain in lazy mode (lazy interval 160 ms), pending limit 2, the DA layer is down for the first 500 ms: the
 		// limit is reached while lazy ticks fire; once the DA layer accepts the backlog, production must resume
 		scen{mode: "agg", bt: 40, span: 2000, lazy: true, dabt: 20, daf: "outage", outms: 500, maxp: 2, notx: true},
+		// STORE FAULTS while the node runs: one write of the node's datastore fails (state write of a block being produced /
+		// applied; any single Put; a batch commit).  The loop that meets the error reports it, Run returns the error by itself
+		// or - if the failing write is one the node lives with - stops promptly when asked; nothing may hang
+		scen{mode: "agg", bt: 50, span: 900, sf: "state", sfat: 400},
+		scen{mode: "full", bt: 50, span: 900, prod: 600, sf: "state", sfat: 150},
+		scen{mode: "agg", bt: 50, span: 800, sf: "commit", sfat: 350},
+		scen{mode: "agg", bt: 40, span: 800, sf: "put", sfat: 300, sfn: 2},
+		scen{mode: "full", bt: 50, span: 900, prod: 500, sf: "commit", sfat: 200},
 	)
 	n := 2
 	if tier == "thorough" {
@@ -163,6 +185,11 @@ func Gen(r *hx.Rng, tier string, w io.Writer) {
 			s.dabt = []int{10, 20, 60, 200}[r.Intn(4)]
 			s.ttl = []int{0, 1, 50, 200}[r.Intn(4)]
 			s.gas = r.Chance(60)
+		}
+		if r.Chance(25) {
+			s.sf = []string{"state", "put", "commit"}[r.Intn(3)]
+			s.sfat = 100 + r.Intn(max(s.span-150, 1))
+			s.sfn = 1 + r.Intn(3)
 		}
 		ss = append(ss, s)
 	}
@@ -358,11 +385,78 @@ func (d *faultDA) Submit(ctx context.Context, blobs []coreda.Blob, gp float64, n
 	return d.DA.Submit(ctx, blobs, gp, ns)
 }
 
+// ---------------------------------------------------------------- store faults
+
+// faultDS hands the node hx.LogDS with hx.LogDS's fault semantics (the next n single Puts / batch commits return
+// hx.ErrInjected and write NOTHING), armed from another goroutine while the node runs: counters are atomics, so the race
+// detector only ever speaks about the repository's code.
+type faultDS struct {
+	*hx.LogDS
+	failPut, failState, failCommit atomic.Int64
+	fired                          atomic.Int64
+}
+
+func take(c *atomic.Int64) bool {
+	for {
+		n := c.Load()
+		if n <= 0 {
+			return false
+		}
+		if c.CompareAndSwap(n, n-1) {
+			return true
+		}
+	}
+}
+
+func (f *faultDS) Put(ctx context.Context, k ds.Key, v []byte) error {
+	if (strings.HasSuffix(k.String(), "/s") && take(&f.failState)) || take(&f.failPut) {
+		f.fired.Add(1)
+		return hx.ErrInjected
+	}
+	return f.LogDS.Put(ctx, k, v)
+}
+
+type faultBatch struct {
+	ds.Batch
+	f *faultDS
+}
+
+func (f *faultDS) Batch(ctx context.Context) (ds.Batch, error) {
+	b, err := f.LogDS.Batch(ctx)
+	if err != nil {
+		return nil, err
+	}
+	return &faultBatch{Batch: b, f: f}, nil
+}
+
+func (b *faultBatch) Commit(ctx context.Context) error {
+	if take(&b.f.failCommit) {
+		b.f.fired.Add(1)
+		return hx.ErrInjected // nothing is written: the inner batch is dropped
+	}
+	return b.Batch.Commit(ctx)
+}
+
+func (f *faultDS) arm(kind string, n int) {
+	if n <= 0 {
+		n = 1
+	}
+	switch kind {
+	case "state":
+		f.failState.Store(int64(n))
+	case "put":
+		f.failPut.Store(int64(n))
+	case "commit":
+		f.failCommit.Store(int64(n))
+	}
+}
+
 // ---------------------------------------------------------------- one real node
 
 type nodeEnv struct {
 	fn       *node.FullNode
 	ds       *hx.LogDS
+	fds      *faultDS
 	store    storepkg.Store
 	exec     *execD
 	gen      genesispkg.Genesis
@@ -376,6 +470,7 @@ type nodeEnv struct {
 
 func newNode(s scen, aggregator bool, da *hx.DA, genesisTime time.Time) (*nodeEnv, error) {
 	e := &nodeEnv{exec: &execD{}, ds: hx.NewLogDS(nil)}
+	e.fds = &faultDS{LogDS: e.ds}
 	if !aggregator && s.xexec > 0 {
 		e.exec.takes = time.Duration(s.xexec) * time.Millisecond
 	}
@@ -437,7 +532,7 @@ func newNode(s scen, aggregator bool, da *hx.DA, genesisTime time.Time) (*nodeEn
 		dal = &faultDA{DA: dal, kind: s.daf, until: time.Now().Add(time.Duration(s.outms) * time.Millisecond)}
 		e.recovery = time.Now().Add(time.Duration(s.outms) * time.Millisecond)
 	}
-	n, err := node.NewNode(context.Background(), cfg, e.exec, &seqD{}, dal, sg, p2pc, e.gen, e.ds,
+	n, err := node.NewNode(context.Background(), cfg, e.exec, &seqD{}, dal, sg, p2pc, e.gen, e.fds,
 		node.DefaultMetricsProvider(&ins), logging.Logger("verif-node"), node.NodeOptions{})
 	if err != nil {
 		return nil, fmt.Errorf("NewNode: %w", err)
@@ -538,13 +633,18 @@ func liveLoops(ignore map[string]bool) map[string]string {
 				top = lines[1]
 			}
 			// the first frame of the repository below the top
-			repoFn := ""
+			repoFn, repoFn2 := "", "" // and its caller (a goroutine parked on a mutex: who holds what is in the caller)
 			for _, l := range lines[1:] {
 				if strings.HasPrefix(l, "github.com/evstack/ev-node/") {
-					repoFn = l[strings.LastIndex(l[:strings.IndexByte(l+"(", '(')], "/")+1:]
-					if i := strings.LastIndex(repoFn, "("); i > 0 {
-						repoFn = repoFn[:i]
+					f := l[strings.LastIndex(l[:strings.IndexByte(l+"(", '(')], "/")+1:]
+					if i := strings.LastIndex(f, "("); i > 0 {
+						f = f[:i]
 					}
+					if repoFn == "" {
+						repoFn = f
+						continue
+					}
+					repoFn2 = f
 					break
 				}
 			}
@@ -562,6 +662,9 @@ func liveLoops(ignore map[string]bool) map[string]string {
 				reason = "select-in-" + repoFn
 			case strings.HasPrefix(state, "sync."), state == "semacquire":
 				reason = "lock-in-" + repoFn
+				if repoFn2 != "" {
+					reason += "-called-by-" + repoFn2
+				}
 			case state == "running" || state == "runnable":
 				reason = "busy-in-" + repoFn
 			case state == "IO wait":
@@ -943,14 +1046,52 @@ func runNode(c *hx.Ctx, s scen, who string, aggregator bool, da *hx.DA, span tim
 		go injector(ictx, e.exec, who, time.Duration(s.bt)*time.Millisecond/2+time.Millisecond)
 	}
 	e.start()
-	select {
-	case err := <-e.done:
-		icancel()
-		out.err = fmt.Sprintf("Run returned before the stop request: %v", err)
-		return
-	case <-time.After(span):
+	var res stopResult
+	selfReturned := false
+	stopTimer := time.After(span)
+	var armTimer <-chan time.Time
+	if s.sf != "" {
+		armTimer = time.After(time.Duration(s.sfat) * time.Millisecond)
 	}
-	res := e.stop()
+wait:
+	for {
+		select {
+		case err := <-e.done:
+			if s.sf != "" && e.fds.fired.Load() > 0 && err != nil {
+				// the expected behaviour after a failed store write: the loop that met it reported the error and Run shut the
+				// node down by itself - nothing is left to stop; the leak monitor still looks at what survives
+				selfReturned = true
+				c.Hit("sfault/" + s.sf + "/run-returned-the-error")
+				res = stopResult{returned: true, runErr: err, stopAt: time.Now(), loopTook: map[string]time.Duration{}, late: map[string]string{}}
+				for i := 0; ; i++ {
+					res.leaked = repoGoroutines(e.baseline)
+					if len(res.leaked) == 0 || i >= 12 {
+						break
+					}
+					time.Sleep(50 * time.Millisecond)
+				}
+				break wait
+			}
+			icancel()
+			out.err = fmt.Sprintf("Run returned before the stop request: %v", err)
+			return
+		case <-armTimer:
+			armTimer = nil
+			e.fds.arm(s.sf, s.sfn)
+		case <-stopTimer:
+			break wait
+		}
+	}
+	if !selfReturned {
+		res = e.stop()
+		if s.sf != "" {
+			if e.fds.fired.Load() > 0 {
+				c.Hit("sfault/" + s.sf + "/stopped-on-request")
+			} else {
+				c.Hit("sfault/" + s.sf + "/not-met")
+			}
+		}
+	}
 	icancel()
 	out.took = res.runTook
 	for l, d := range res.loopTook {
@@ -983,6 +1124,9 @@ func runNode(c *hx.Ctx, s scen, who string, aggregator bool, da *hx.DA, span tim
 	want := []string{"RetrieveLoop", "HeaderStoreRetrieveLoop", "DataStoreRetrieveLoop", "SyncLoop", "DAIncluderLoop"}
 	if aggregator {
 		want = []string{"AggregationLoop", "Reaper.Start", "HeaderSubmissionLoop", "DataSubmissionLoop", "DAIncluderLoop"}
+	}
+	if selfReturned || (s.sf != "" && e.fds.fired.Load() > 0) {
+		want = nil // the loop that met the injected store error may have returned (with the error) before the stop request
 	}
 	for _, l := range want {
 		if _, ok := res.atStop[l]; !ok {
@@ -1026,7 +1170,7 @@ func runNode(c *hx.Ctx, s scen, who string, aggregator bool, da *hx.DA, span tim
 	}
 	// progress while running: with a healthy DA layer, 6 DA block times after the first block both submission watermarks
 	// are close to the chain and something is DA-included
-	if aggregator && s.daf == "" && s.slow == 0 && s.xagg == 0 && len(ch) > 0 {
+	if aggregator && s.daf == "" && s.slow == 0 && s.xagg == 0 && s.sf == "" && len(ch) > 0 {
 		dabt := time.Duration(s.dabt) * time.Millisecond
 		if dabt == 0 {
 			dabt = time.Duration(s.bt) * time.Millisecond
@@ -1091,6 +1235,7 @@ func runScenario(c *hx.Ctx, s scen) outcome {
 	gt := now.Add(-time.Second)
 	ps := s
 	ps.lazy = false
+	ps.sf = "" // the store fault is for the node under test
 	pout, pchain := runNode(c, ps, "producer", true, da, time.Duration(s.prod)*time.Millisecond, gt)
 	if pout.err != "" || pout.stopped != "1" {
 		pout.err = "producer: " + pout.err
@@ -1120,7 +1265,10 @@ func runScenario(c *hx.Ctx, s scen) outcome {
 func parseScen(o hx.Op) (scen, bool) {
 	s := scen{mode: o.Str("mode"), future: o.Int("future"), slow: o.Int("slow"), lazy: o.Bool("lazy"), bt: o.Int("bt"), span: o.Int("span"), prod: o.Int("prod"), xexec: o.Int("xexec"),
 		daf: o.Str("daf"), dabt: o.Int("dabt"), ttl: o.Int("ttl"), gas: o.Bool("gas"), xagg: o.Int("xagg"),
-		maxp: o.Int("maxp"), outms: o.Int("outms"), notx: o.Bool("notx")}
+		maxp: o.Int("maxp"), outms: o.Int("outms"), notx: o.Bool("notx"), sf: o.Str("sf"), sfat: o.Int("sfat"), sfn: o.Int("sfn")}
+	if (s.sf != "" && s.sf != "state" && s.sf != "put" && s.sf != "commit") || s.sfat < 0 || s.sfat > 20000 || s.sfn < 0 || s.sfn > 100 || (s.sf == "" && (s.sfat != 0 || s.sfn != 0)) {
+		return s, false
+	}
 	if s.mode != "agg" && s.mode != "full" {
 		return s, false
 	}
